@@ -32,7 +32,9 @@ type evictOpts struct {
 	morePending             int                // further pending jobs p1.. in the pending job's queue (or otherPendingQ)
 	otherPendingQ           string
 	fixedCpu                float64 // with sameCpu: the shared request is this concrete value
-	signatures              bool // scheduling signatures on (failed jobs' shape prunes later identical ones)
+	symLimit                bool    // the pending job's leaf queue (single-department world) has a symbolic limit
+	gpuDim                  bool    // whole GPUs instead of milli-cpu (requests >= 1)
+	signatures              bool    // scheduling signatures on (failed jobs' shape prunes later identical ones)
 }
 
 type evictWorld struct {
@@ -54,12 +56,20 @@ func hoursOrNil(name string, on bool) *int64 {
 }
 
 func actEvictWorld(o evictOpts) *evictWorld {
-	w := &actWorld{vm: resource_info.NewResourceVectorMap()}
+	w := &actWorld{vm: resource_info.NewResourceVectorMap(), gpuDim: o.gpuDim}
+	minReq := 10.0
+	if o.gpuDim {
+		minReq = 1
+	}
 	nat := func(name string) float64 {
 		if v, ok := o.leafQuota[strings.TrimSuffix(name, ".deserved")]; ok {
 			return v
 		}
 		return vr.AnyFloatNat(name, o.bits)
+	}
+	qaLimit := -1.0
+	if o.symLimit {
+		qaLimit = vr.AnyFloatNat("qa.limit", o.bits+2)
 	}
 	if o.twoDepts {
 		w.queues = []actQueue{
@@ -72,7 +82,7 @@ func actEvictWorld(o evictOpts) *evictWorld {
 	} else {
 		w.queues = []actQueue{
 			{name: "d", parent: "", deserved: -1, limit: -1, reclaimMinH: hoursOrNil("d.reclaimMin", o.minRuntime), preemptMinH: hoursOrNil("d.preemptMin", o.minRuntime)},
-			{name: "qa", parent: "d", deserved: nat("qa.deserved"), limit: -1, preemptMinH: hoursOrNil("qa.preemptMin", o.minRuntime)},
+			{name: "qa", parent: "d", deserved: nat("qa.deserved"), limit: qaLimit, preemptMinH: hoursOrNil("qa.preemptMin", o.minRuntime)},
 			{name: "qb", parent: "d", deserved: nat("qb.deserved"), limit: -1, reclaimMinH: hoursOrNil("qb.reclaimMin", o.minRuntime)},
 			{name: "qc", parent: "d", deserved: nat("qc.deserved"), limit: -1},
 		}
@@ -82,14 +92,14 @@ func actEvictWorld(o evictOpts) *evictWorld {
 		shared = o.fixedCpu
 	} else if o.sameCpu {
 		shared = nat("cpu")
-		vr.Assume(shared >= 10)
+		vr.Assume(shared >= minReq)
 	}
 	cpuOf := func(name string) float64 {
 		if o.sameCpu {
 			return shared
 		}
 		c := nat(name + ".cpu")
-		vr.Assume(c >= 10)
+		vr.Assume(c >= minReq)
 		return c
 	}
 	prioOf := func(name string) int32 {
@@ -424,4 +434,17 @@ func VerifC07_TwoReclaimersOneCycle() {
 	w.observe()
 	vr.Cover(len(w.cache.evicts) == 2, "C07.cover.two-reclaims-in-one-cycle")
 	w.assertReclaimFair()
+}
+
+// VerifC08_PreemptAction: queue limits hold after the real preempt action: what stays running plus
+// what is nominated in the preemptor's queue never exceeds the queue's limit (the what-if placements
+// of the solver go through the same capacity checks as real ones).
+// BOUND: 1 node with symbolic free GPUs; queue qa (symbolic limit and deserved quota) under d; two running preemptible single-pod jobs and one pending job in qa, independent symbolic whole-GPU requests in 1..7 and int32 priorities
+func VerifC08_PreemptAction() {
+	w := actEvictWorld(evictOpts{bits: 3, nVictims: 2, victimQ: []string{"qa"}, pendingQ: "qa", symPrio: true, fixedPreemptibleVictims: true, fixedPending: true, symLimit: true, gpuDim: true, nodeSlack: true})
+	lim := w.queueOf("qa").limit
+	vr.Assume(w.pre["qa"] <= lim) // reachable pre-state (C08's invariant)
+	preempt.New().Execute(w.ssn)
+	w.observe()
+	vr.Assert(w.postAlloc("qa") <= lim, "C08.preempt-action-keeps-queue-within-limit")
 }
